@@ -132,21 +132,35 @@ fn prompt_print_cmd(r: &mut Rng, edges: bool) -> String {
             r.below(40) as u32
         }
     };
+    // a constant typed at the prompt may lie beyond 2^20 (the reader reduces it; a report is
+    // accepted as well - never an abort, never other bytes)
+    let beyond = |r: &mut Rng, v: u32| -> u64 {
+        if edges && r.chance(8) {
+            v as u64 + 0x100000 * r.range(1, 4) as u64
+        } else {
+            v as u64
+        }
+    };
     let body = match r.below(8) {
         0 | 1 => "print reg".to_owned(),
         2 => "print flags".to_owned(),
         3 | 4 => {
             let a = addr(r);
             let b = if r.chance(12) && a > 0 { a - 1 } else { (a + len(r)).min(0xFFFFF) };
+            let (a, b) = (beyond(r, a), beyond(r, b));
             format!("print mem {} -> {}", a, b)
         }
         5 => {
             let a = addr(r);
             // sometimes leaves the 1 MiB space: must be reported, not printed
             let n = if r.chance(15) { 0xFFFFF - a + 1 + r.below(4) as u32 } else { len(r).min(0xFFFFF - a) };
+            let (a, n) = (beyond(r, a), beyond(r, n));
             format!("print mem {} : {}", a, n)
         }
-        6 => format!("print mem : {}", len(r)),
+        6 => {
+            let n = len(r);
+            format!("print mem : {}", beyond(r, n))
+        }
         _ => format!("print mem {} -> {}", r.below(64), 64 + r.below(64)),
     };
     match r.below(5) {
